@@ -8,6 +8,7 @@ import (
 	"go/parser"
 	"go/token"
 	"os"
+	"runtime"
 	"testing"
 
 	"github.com/dave/jennifer/jen"
@@ -87,22 +88,40 @@ func inKnownClass(c Case) bool {
 }
 
 func checkX(c Case, exclude bool) error {
-	if exclude && inKnownClass(c) {
+	err := checkCore(c)
+	// a failure is only set aside when the case lies in the input class of a known finding; the
+	// classification runs afterwards so that it cannot disturb what is being checked
+	if err != nil && exclude && inKnownClass(c) {
 		return nil
 	}
+	return err
+}
+
+func checkCore(c Case) error {
+	// poison: renders that panic in the documented way half-way through, recovered as a caller
+	// would; whatever they leave behind in the process must not reach the renders that follow.
+	// The goroutine stays on its thread meanwhile (per-P caches such as sync.Pool stay reachable).
+	poison := func() {}
 	if c.AfterPanic {
-		func() {
-			defer func() { _ = recover() }()
-			f := jen.NewFile("leak")
-			f.Var().Id("leaked").Op("=").Lit(1)
-			f.Var().Id("boom").Op("=").Lit(struct{}{}) // documented panic: unsupported type for literal
-			_ = f.Render(&bytes.Buffer{})
-		}()
-		func() {
-			defer func() { _ = recover() }()
-			_ = jen.Id("leakedstmt").Op(":=").Lit(1).Line().Lit([]int{}).Render(&bytes.Buffer{})
-		}()
+		runtime.LockOSThread()
+		defer runtime.UnlockOSThread()
+		poison = func() {
+			for i := 0; i < 3; i++ {
+				func() {
+					defer func() { _ = recover() }()
+					f := jen.NewFile("leak")
+					f.Var().Id("leaked").Op("=").Lit(1)
+					f.Var().Id("boom").Op("=").Lit(struct{}{}) // documented panic: unsupported type for literal
+					_ = f.Render(&bytes.Buffer{})
+				}()
+				func() {
+					defer func() { _ = recover() }()
+					_ = jen.Id("leakedstmt").Op(":=").Lit(1).Line().Lit([]int{}).Render(&bytes.Buffer{})
+				}()
+			}
+		}
 	}
+	poison()
 	c.Forms.Rewind()
 	ba := &recipe.Builder{Forms: c.Forms}
 	var fa *jen.File
@@ -123,6 +142,7 @@ func checkX(c Case, exclude bool) error {
 		if _, err := parser.ParseFile(token.NewFileSet(), "", outA, parser.ParseComments); err != nil {
 			return fmt.Errorf("Render returned nil but the output does not parse: %v\n%s", err, outA)
 		}
+		poison()
 		c.Forms.Rewind()
 		bb := &recipe.Builder{Forms: c.Forms}
 		fb := bb.File(noFormat(c.File))
@@ -272,9 +292,6 @@ func TestC02(t *testing.T) {
 			calls += recipe.CountCalls(n)
 		}
 		oc := outcome(c)
-		if inKnownClass(c) {
-			r.ExcludedKnown()
-		}
 		r.Class(kind + ":" + oc)
 		if calls >= 3 {
 			r.NonTrivial(recipe.JSON(c.File))
